@@ -6,7 +6,7 @@ import torch
 
 from torchtree.core.identifiable import Identifiable
 from torchtree.core.model import CallableModel
-from torchtree.core.parameter_utils import save_parameters
+from torchtree.core.parameter_utils import keep_other_entries, save_parameters
 from torchtree.core.runnable import Runnable
 from torchtree.core.utils import (
     SignalHandler,
@@ -168,7 +168,9 @@ class MCMC(Identifiable, Runnable):
             "type": "MCMC",
         }
         mcmc_state.update(self.state_dict())
-        full_state = [mcmc_state] + self.parameters
+        full_state = keep_other_entries(
+            self.checkpoint, [mcmc_state] + self.parameters
+        )
         save_parameters(self.checkpoint, full_state)
 
     @classmethod
